@@ -21,6 +21,9 @@ TNext == /\ l <= Len(Rec)
          /\ errk' = Rec[l].errk /\ doc' = Rec[l].doc
          /\ raw' = NoRaw /\ rid' = NoRid
 
+\* a panic inside the document code is recorded as errk = "panic"
+NoPanic == errk # "panic"
+
 Accepted ==
     IF TLCGet("stats").diameter - 1 = Len(Rec)
     THEN PrintT("TRACE-ACCEPTED")
